@@ -1176,7 +1176,12 @@ class Config:  # pylint: disable=too-many-instance-attributes
                 return cfg.__contains__(subkey)
             return False
 
-        return key in self._data
+        if key in self._data:
+            return True
+        # virtual and instance-method fields are readable like any other field but store no value
+        return isinstance(
+            self._get_field(key), (VirtualFieldMixin, InstanceMethodFieldMixin)
+        )
 
     @property
     def full_path(self) -> str:
